@@ -147,8 +147,9 @@ Proof.
   rewrite Hk. rewrite (proc_subpath_nonneg fd Hpos).
   set (fl := without flags REOPEN_REMOVED) in *.
   set (nm := dec (Z.to_N fd)).
-  unfold popen_follow. rewrite Hacc.
-  unfold nm. rewrite (strip_fd _ (dec_no_slash _) (dec_ne _)). fold nm.
+  unfold popen_follow. change (follow_refused fl = false) in Hacc. rewrite Hacc, andb_false_r. cbv iota.
+  unfold nm. rewrite (strip_fd _ (dec_no_slash _) (dec_ne _)). fold nm. cbv beta iota.
+  rewrite Hacc, andb_false_r. cbv iota.
   (* the readlink that tells whether the target is a link at all *)
   rewrite (run_bind s rp).
   pose proof (run_as_unsafe_path s rp fz Hfz gh Hmnt Ho2 pf t fd o exp HP Hfd Hpath Hlen) as Hrl.
@@ -290,8 +291,9 @@ Proof.
   rewrite Hk. rewrite (proc_subpath_nonneg fd Hpos).
   set (fl := without flags REOPEN_REMOVED) in *.
   set (nm := dec (Z.to_N fd)).
-  unfold popen_follow. rewrite Hacc.
-  unfold nm. rewrite (strip_fd _ (dec_no_slash _) (dec_ne _)). fold nm.
+  unfold popen_follow. change (follow_refused fl = false) in Hacc. rewrite Hacc, andb_false_r. cbv iota.
+  unfold nm. rewrite (strip_fd _ (dec_no_slash _) (dec_ne _)). fold nm. cbv beta iota.
+  rewrite Hacc, andb_false_r. cbv iota.
   rewrite (run_bind s rp).
   pose proof (run_as_unsafe_path_emu s rp fz Hfz gh Hmnt Ho2 pf t fd o exp HP Hfd Hpath Hlen) as Hrl.
   unfold as_unsafe_path in Hrl. rewrite (proc_subpath_nonneg fd Hpos) in Hrl. fold nm in Hrl. rewrite Hrl. cbv iota.
